@@ -25,15 +25,15 @@ Definition score_table : list (list (option N)) := [
   [Some 10; None; None; None; None; None; None; None; None; None; None; None; None; None; None; None; None; None; None; None; None; None; None; None; None; None; None];
   [Some 10; None; None; Some 162; Some 160; Some 161; Some 191; Some 190; None; Some 152; Some 152; Some 154; Some 153; None; Some 179; Some 180; Some 181; Some 141; Some 140; None; Some 131; None; Some 132; Some 80; None; None; Some 10];
   [Some 10; None; None; None; None; None; None; None; None; None; None; None; None; None; None; None; None; None; None; None; None; None; None; None; None; None; None];
-  [Some 10; None; None; None; Some 160; Some 161; Some 191; Some 190; None; None; None; None; None; None; Some 179; Some 180; Some 181; Some 141; Some 140; None; None; None; None; Some 80; None; None; None];
-  [Some 10; None; None; None; None; Some 161; Some 191; Some 190; None; None; None; None; None; None; Some 179; Some 180; Some 181; Some 141; Some 140; None; None; None; None; Some 80; None; None; None];
-  [Some 10; None; None; None; None; None; Some 191; Some 190; None; None; None; None; None; None; Some 179; Some 180; Some 181; Some 141; Some 140; None; None; None; None; Some 80; None; None; None];
-  [Some 10; None; None; None; None; None; None; Some 190; None; None; None; None; None; None; None; Some 180; Some 181; None; Some 140; None; None; None; None; Some 80; None; None; None];
+  [Some 10; None; None; None; Some 160; Some 161; Some 191; Some 190; Some 185; None; None; None; None; None; Some 179; Some 180; Some 181; Some 141; Some 140; None; None; None; None; Some 80; None; None; None];
+  [Some 10; None; None; None; None; Some 161; Some 191; Some 190; Some 185; None; None; None; None; None; Some 179; Some 180; Some 181; Some 141; Some 140; None; None; None; None; Some 80; None; None; None];
+  [Some 10; None; None; None; None; None; Some 191; Some 190; Some 185; None; None; None; None; None; Some 179; Some 180; Some 181; Some 141; Some 140; None; None; None; None; Some 80; None; None; None];
+  [Some 10; None; None; None; None; None; None; Some 190; Some 185; None; None; None; None; None; None; Some 180; Some 181; None; Some 140; None; None; None; None; Some 80; None; None; None];
   [Some 10; None; None; None; None; None; None; None; None; None; None; None; None; None; None; Some 180; Some 181; None; None; None; None; None; None; Some 80; None; None; None];
-  [Some 10; None; None; None; None; Some 161; Some 191; Some 190; None; None; Some 152; Some 154; Some 153; None; Some 179; Some 180; Some 181; Some 141; Some 140; None; None; None; None; Some 80; None; None; None];
-  [Some 10; None; None; None; None; None; Some 191; Some 190; None; None; Some 152; Some 154; Some 153; None; Some 179; Some 180; Some 181; Some 141; Some 140; None; None; None; None; Some 80; None; None; None];
-  [Some 10; None; None; None; None; None; None; Some 190; None; None; None; None; Some 153; None; None; Some 180; Some 181; Some 141; Some 140; None; None; None; None; Some 80; None; None; None];
-  [Some 10; None; None; None; None; None; None; None; None; None; None; None; Some 153; None; None; Some 180; Some 181; Some 141; Some 140; None; None; None; None; Some 80; None; None; None];
+  [Some 10; None; None; None; None; Some 161; Some 191; Some 190; Some 185; None; Some 152; Some 154; Some 153; None; Some 179; Some 180; Some 181; Some 141; Some 140; None; None; None; None; Some 80; None; None; None];
+  [Some 10; None; None; None; None; None; Some 191; Some 190; Some 185; None; Some 152; Some 154; Some 153; None; Some 179; Some 180; Some 181; Some 141; Some 140; None; None; None; None; Some 80; None; None; None];
+  [Some 10; None; None; None; None; None; None; Some 190; Some 185; None; None; None; Some 153; None; None; Some 180; Some 181; Some 141; Some 140; None; None; None; None; Some 80; None; None; None];
+  [Some 10; None; None; None; None; None; None; None; Some 185; None; None; None; Some 153; None; None; Some 180; Some 181; Some 141; Some 140; None; None; None; None; Some 80; None; None; None];
   [Some 10; None; None; None; None; None; None; None; None; None; None; None; None; None; None; Some 180; Some 181; None; None; None; None; None; None; Some 80; None; None; None];
   [Some 10; None; None; None; None; None; None; None; None; None; None; None; None; None; Some 179; Some 180; Some 181; Some 141; Some 140; None; None; None; None; Some 80; None; None; None];
   [Some 10; None; None; None; None; None; None; None; None; None; None; None; None; None; Some 179; Some 180; Some 181; Some 141; Some 140; None; None; None; None; Some 80; None; None; None];
@@ -655,12 +655,14 @@ Definition aggregate_sets : list fset := [
       {| s_pos := [5]; s_var := None; s_ret := 7 |};
       {| s_pos := [6]; s_var := None; s_ret := 7 |};
       {| s_pos := [7]; s_var := None; s_ret := 7 |};
+      {| s_pos := [12]; s_var := None; s_ret := 8 |};
       {| s_pos := [17]; s_var := None; s_ret := 18 |};
       {| s_pos := [18]; s_var := None; s_ret := 18 |}] |};
   (* avg *) {| f_sigs := [
       {| s_pos := [17]; s_var := None; s_ret := 16 |};
       {| s_pos := [18]; s_var := None; s_ret := 16 |};
       {| s_pos := [7]; s_var := None; s_ret := 16 |};
+      {| s_pos := [12]; s_var := None; s_ret := 16 |};
       {| s_pos := [16]; s_var := None; s_ret := 16 |}] |};
   (* count *) {| f_sigs := [
       {| s_pos := [0]; s_var := None; s_ret := 7 |}] |};
